@@ -33,14 +33,21 @@ func (mp metaPath) FilePath() string {
 }
 
 type metaStore struct {
-	fs          afero.Fs
+	fs afero.Fs
+
+	// objectFile returns the file system and the path that hold the contents
+	// of an object; the metadata store needs them to re-hash an object whose
+	// stored metadata is missing or out of date.
+	objectFile func(bucket, object string) (afero.Fs, string)
+
 	modTimeCalc modTimeCalc
 	modTimeRes  time.Duration
 }
 
-func newMetaStore(fs afero.Fs, modTimeCalc modTimeCalc) *metaStore {
+func newMetaStore(fs afero.Fs, objectFile func(bucket, object string) (afero.Fs, string), modTimeCalc modTimeCalc) *metaStore {
 	b := &metaStore{
 		fs:          fs,
+		objectFile:  objectFile,
 		modTimeCalc: modTimeCalc,
 		modTimeRes:  -1,
 	}
@@ -101,7 +108,9 @@ func (ms *metaStore) loadMeta(bucket string, object string, size int64, mtime ti
 	if len(meta.Hash) == 0 || meta.Size != size || modDiff < -modRes || modDiff > modRes {
 		meta.Size = size
 		meta.ModTime = mtime
-		meta.Hash, err = hashFile(ms.fs, fullPath)
+		// Hash the object itself; fullPath is the path of its metadata file.
+		objectFs, objectPath := ms.objectFile(bucket, object)
+		meta.Hash, err = hashFile(objectFs, objectPath)
 		if err != nil {
 			return nil, err
 		}
